@@ -44,9 +44,11 @@ class ProbeReducer(observe.Reducer):
     def __init__(self):
         observe.Reducer.__init__(self)
         self.count = 0
+        self.last = None
 
     def clear(self, **kwargs):
         self.count = 0
+        self.last = None
 
     def view(self, *a, **k):
         return self.peek()
@@ -55,13 +57,18 @@ class ProbeReducer(observe.Reducer):
         return self.peek()
 
     def peek(self, *a, **k):
-        return None if self.count == 0 else torch.tensor(float(self.count))
+        # data shaped like the observation (so that a trainer's reducer reading it by name can consume it)
+        if self.count == 0:
+            return None
+        return self.last if self.last is not None else torch.tensor(float(self.count))
 
     def push(self, inputs, **k):
-        self.count += 1
+        self.forward(inputs)
 
     def forward(self, *inputs, **k):
         self.count += 1
+        if inputs and isinstance(inputs[0], torch.Tensor):
+            self.last = inputs[0].detach().to(torch.float64)
 
 
 def mk_world(world):
@@ -297,6 +304,8 @@ class Run:
 
 def handler(payload):
     res = []
+    gc.collect()
+    gc.freeze()          # the interpreter's and torch's own objects need not be re-traversed by every collection
     for case in payload["cases"]:
         r = Run(case)
         res.append(r.run())
